@@ -29,8 +29,8 @@ Open Scope N_scope.
    C_SFS  one pre-sized sFlow sample or record slot (16 / 24 bytes)
    C_SFB  one byte of an sFlow datagram: decoded record contents, the dissected header, one message per sample
    C_0    fixed cost of a call (message wrapper, errors, metrics labels) *)
-Definition C_REC : N := 1600.
-Definition C_FLD : N := 224.
+Definition C_REC : N := 1850.
+Definition C_FLD : N := 240.
 Definition C_TB : N := 64.
 Definition C_SET : N := 256.
 Definition T_ERR : N := 1048576.
